@@ -263,13 +263,152 @@ fn damage() -> impl Strategy<Value = Damage> {
     ]
 }
 
+// ------------------------------------------------------------------ crash-left inputs from the C02 engine
+
+#[derive(Debug, Clone, Serialize, Deserialize)]
+pub struct CrashCase21 {
+    pub hist: crate::crash::CrashCase,
+    /// which crash points of the recorded run are handed to doctor (monotone indices)
+    pub picks: Vec<u16>,
+    pub opts: (bool, bool, bool, bool),
+}
+
+/// Doctor on files as a process crash INSIDE an API call leaves them (every syscall prefix is a
+/// candidate; a few are picked per history): doctor must return a report, the result must open and
+/// show the state after the acknowledged calls or the one including the call in flight, verify(deep)
+/// must pass and a second run must be Clean.
+pub fn check_crash_left(c: &CrashCase21) -> CheckResult {
+    use crate::crash::{self, DirState, Rec};
+    let rec = crash::record(&c.hist, "C21c")?;
+    if rec.n_ops == 0 {
+        return Ok(CaseInfo::trivial().class("recording_empty"));
+    }
+    // candidate points: strictly inside a call, at least one call acknowledged
+    let mut st = DirState::default();
+    let mut cands: Vec<(usize, DirState)> = Vec::new();
+    for (k, r) in rec.recs.iter().enumerate() {
+        if r.is_marker() {
+            continue;
+        }
+        st.apply(r);
+        if matches!(r, Rec::Fsync { .. } | Rec::FsyncDir) {
+            continue;
+        }
+        let (acked, inflight) = crash::position(&rec.recs, k + 1);
+        if acked.is_some_and(|a| a >= 1) && inflight.is_some() {
+            cands.push((k, st.clone()));
+        }
+    }
+    if cands.is_empty() {
+        return Ok(CaseInfo::trivial().class("no_mid_call_crash_point"));
+    }
+    let mut info = CaseInfo::trivial();
+    let mut chosen: Vec<usize> = c.picks.iter().map(|p| crate::util::pick_index(*p, cands.len())).collect();
+    chosen.sort();
+    chosen.dedup();
+    let mut fails: Vec<Fail> = Vec::new();
+    for ci in chosen {
+        let (k, state) = &cands[ci];
+        let (acked, inflight) = crash::position(&rec.recs, k + 1);
+        // inputs that a plain open already rejects or shows wrongly are C02's listed findings: doctor
+        // is judged on them too (it is the tool for exactly these files), but an input that carries a
+        // partial multi-record document cannot be told apart from a legitimate one by doctor
+        let dir = crate::util::Scratch::new("C21d");
+        state.materialise(&dir.0).map_err(infra)?;
+        let input = dir.path(crash::MEM_NAME);
+        if !input.exists() {
+            continue;
+        }
+        // stray staging files of the interrupted commit are not sidecars doctor refuses
+        let (rt, rl, rv, vac) = c.opts;
+        let mut o = DoctorOptions::default();
+        o.rebuild_time_index = rt;
+        o.rebuild_lex_index = rl;
+        o.rebuild_vec_index = rv;
+        o.vacuum = vac;
+        o.quiet = true;
+        info.sub_evaluations += 1;
+        let what = format!("file left by a crash after syscall #{k} inside op {:?} (acknowledged up to op {:?}); options rebuild_time={rt} rebuild_lex={rl} rebuild_vec={rv} vacuum={vac}", inflight, acked);
+        let plain_ok = matches!(crash::observe_state(state)?, Ok(_));
+        let report = match doctor(&input, o) {
+            Ok(r) => r,
+            Err(mut f) => {
+                if !plain_ok {
+                    // unopenable input (C02's listed in-place windows): doctor declining is not judged
+                    info.classes.push("doctor_declined_unopenable_input");
+                    continue;
+                }
+                f.msg = format!("{} ({what})", f.msg);
+                fails.push(f);
+                continue;
+            }
+        };
+        if matches!(report.status, DoctorStatus::Failed) {
+            if !plain_ok {
+                info.classes.push("doctor_declined_unopenable_input");
+                continue;
+            }
+            fails.push(Fail::new("C21:doctor-status-failed-on-crash-left-file", format!("doctor reports Failed on a file that Memvid::open accepts ({what})")));
+            continue;
+        }
+        let after = DirState { names: [(crash::MEM_NAME.to_string(), 1u64)].into_iter().collect(), inodes: [(1u64, std::fs::read(&input).map_err(infra)?)].into_iter().collect() };
+        match crash::observe_state(&after)? {
+            Err(e) => fails.push(Fail::new("C21:unopenable-after-doctor-on-crash-left-file", format!("doctor returned {:?} but the file does not open: {e} ({what})", report.status))),
+            Ok(s) => {
+                let expect = |i: Option<usize>| i.and_then(|i| rec.refs.get(i).cloned().flatten());
+                let (a, b) = (expect(acked), expect(inflight));
+                let ok = a.as_ref().is_some_and(|x| crash::ref_diff(x, &s).is_none()) || b.as_ref().is_some_and(|x| crash::ref_diff(x, &s).is_none());
+                if !ok && (a.is_some() || b.is_some()) && !crate::props::c02::is_partial_document(&a, &b, &s) {
+                    // frames lost or altered relative to what was acknowledged?
+                    let lost = a.as_ref().is_some_and(|a| s.frames.len() < a.frames.len() || a.frames.iter().zip(s.frames.iter()).any(|(x, y)| x.1 == "Active" && (x.0, &x.3, &x.4) != (y.0, &y.3, &y.4)));
+                    if lost && plain_ok {
+                        fails.push(Fail::new("C21:doctor-lost-acknowledged-frame-on-crash-left-file", format!("after doctor the memory shows {} frames; difference to the acknowledged state: {} ({what})", s.frames.len(), a.as_ref().and_then(|x| crash::ref_diff(x, &s)).unwrap_or_default())));
+                    }
+                }
+                info.sub_nontrivial.push(*k as u64);
+                // healed file: verify + second run
+                match Memvid::verify(&input, true) {
+                    Ok(r) if r.overall_status == VerificationStatus::Passed => {}
+                    Ok(r) => fails.push(Fail::new("C21:verify-not-passed", format!("verify(deep) after doctor: {:?} ({what})", r.overall_status))),
+                    Err(e) => fails.push(Fail::new("C21:verify-error", format!("verify(deep) after doctor failed: {e} ({what})"))),
+                }
+                let mut o2 = DoctorOptions::default();
+                o2.quiet = true;
+                match doctor(&input, o2) {
+                    Ok(r2) if r2.status == DoctorStatus::Clean => {}
+                    Ok(r2) => fails.push(Fail::new("C21:second-run-not-clean", format!("second doctor run reports {:?} ({what})", r2.status))),
+                    Err(mut f) => {
+                        f.key = format!("{}-second-run", f.key);
+                        fails.push(f);
+                    }
+                }
+            }
+        }
+    }
+    info.classes.sort();
+    info.classes.dedup();
+    if !fails.is_empty() {
+        return Err(crate::props::c02::pick_fail(fails, "C21").with_info(info));
+    }
+    Ok(info)
+}
+
 pub fn build(ctx: &Ctx) -> Vec<Box<dyn Arm>> {
     ctx.rule("files produced by generated histories (plain/embedded/chunked puts, updates, deletes, commits, reopen), taken either as a process kill leaves them (file copied while the handle is alive: acknowledged records still pending in the log) or after a clean close, then (cleanly closed files only: one cause per input) damaged in ONE repairable structure (header footer pointer; header TOC checksum; the TOC's own checksum field; commit footer magic/length/hash/generation; bytes inside the time index / a lexical segment / the vector index) or left undamaged; doctor with all 2^5 combinations of rebuild_time/rebuild_lex/rebuild_vec/vacuum/dry_run; oracle: dry_run leaves the bytes unchanged; otherwise doctor returns a report that is not Failed, the file opens and the reference model of every acknowledged operation (committed or pending) matches the frame table, contents and (unless the vector segment was the damaged structure) embeddings; verify(deep) == Passed; an immediate second run with default options reports Clean and changes no frame; non-trivial = the input needed a repair (damage or pending records)");
     ctx.assume("embeddings live only in the vector index: when that segment itself is destroyed their loss is not asserted; log damage is outside the property's list");
+    ctx.rule("arm crash_left: histories recorded by the C02 engine; a few syscall prefixes strictly inside an API call (with >= 1 call acknowledged) are materialised and handed to doctor with generated options; oracle: doctor does not fail on a file that Memvid::open accepts, the result opens, no acknowledged active frame is lost or altered, verify(deep) Passed, second run Clean; inputs that Memvid::open itself rejects (C02's listed in-place windows) may be declined");
     let t = ctx.tier;
     vec![arm_with(
+        "crash_left",
+        t.pick(6, 200),
+        8,
+        t.pick(6, 30),
+        move || (crate::props::c02::case(t.pick(6, 20)), prop::collection::vec(any::<u16>(), 2..=t.pick(3, 8)), (any::<bool>(), any::<bool>(), any::<bool>(), prop::bool::weighted(0.25))).prop_map(|(hist, picks, opts)| CrashCase21 { hist, picks, opts }),
+        check_crash_left,
+    ),
+    arm_with(
         "doctor",
-        t.pick(120, 3000),
+        t.pick(90, 3000),
         8,
         t.pick(60, 200),
         move || {
